@@ -357,3 +357,129 @@ func Harness_C06_ratio_monotone() {
 	}
 	v.Reach("C06.ratio.end")
 }
+
+func c05Cfg(st *c05State) SamplerConfig {
+	cfg := SamplerConfig{
+		Rand:          rand.New(),
+		KeepF:         func(it *MultiItem, ts uint32, quota uint32) { st.find(it).kept++ },
+		DiscardF:      func(it *MultiItem, ts uint32) { st.find(it).dropped++ },
+		SampleFactorF: func(metricID int32, sf float64) {},
+		RoundF:        func(b float64, r *rand.Rand) float64 { return math.Floor(b) },
+	}
+	cfg.SelectF = func(items []SamplingMultiItemPair, sf float64, r *rand.Rand) int {
+		st.selCalls++
+		pos := int(v.NondetIntRange(0, int64(len(items))))
+		for i := range items {
+			row := st.find(items[i].Item)
+			row.inSel = true
+			row.sfAtSel = sf
+			row.selKept = i < pos
+		}
+		return pos
+	}
+	return cfg
+}
+
+func c05Common(st *c05State) {
+	for _, r := range st.rows {
+		v.Assert("C05.each_row_kept_or_discarded_exactly_once", r.kept+r.dropped == 1)
+		if r.inSel {
+			v.Assert("C05.selected_iff_kept", (r.kept == 1) == r.selKept)
+			v.Assert("C05.row_carries_selector_factor", r.item.SF == r.sfAtSel)
+		} else {
+			v.Assert("C05.unconditional_rows_kept", r.kept == 1)
+			v.Assert("C05.unconditional_rows_factor_1", r.item.SF == 1)
+		}
+	}
+}
+
+// Dedicated per-metric budgets (SampleBudgets): 2..3 rows over two metrics, metric 1 carries its own
+// budget (1 or 4) on its rows, metric 2 shares the common budget (0..32); agent mode, the
+// no-sample-on-agent switch and the metric-1 flag arbitrary. Every row is kept or discarded once with
+// the selector's factor; a no-sample-agent metric on an agent is always kept with factor 1 - with or
+// without a dedicated budget; a metric that fits its dedicated budget is kept entirely; the metric on
+// the common budget is kept entirely when it fits it (the dedicated metric does not eat from it).
+func c05Budgets(n int) {
+	st := &c05State{}
+	metas := []*format.MetricMetaValue{{MetricID: 1, EffectiveWeight: 1}, {MetricID: 2, EffectiveWeight: 1}}
+	cfg := c05Cfg(st)
+	cfg.SampleBudgets = true
+	cfg.ModeAgent = v.NondetBool()
+	cfg.DisableNoSampleAgent = v.NondetBool()
+	metas[0].NoSampleAgent = v.NondetBool()
+	dedicated := uint32([]int{1, 4}[v.Choice(2)])
+	h := NewSampler(cfg)
+	size := [2]int{}
+	for i := 0; i < n; i++ {
+		m := v.Choice(2)
+		row := &c05Row{item: &MultiItem{MetricMeta: metas[m]}, size: []int{1, 3, 8}[v.Choice(3)], whale: v.NondetFloatInt(0, 100), metric: metas[m].MetricID}
+		st.rows = append(st.rows, row)
+		size[m] += row.size
+		p := SamplingMultiItemPair{Item: row.item, WhaleWeight: row.whale, Size: row.size, MetricID: row.metric, BucketTs: 1000}
+		if m == 0 {
+			p.Budget = dedicated
+		}
+		h.Add(p)
+	}
+	budget := []int64{0, 1, 2, 4, 7, 8, 11, 16, 32}[v.Choice(9)] // concrete list: a symbolic budget under the dedicated-budget partition gave solver unknowns
+	h.Run(budget)
+	c05Common(st)
+	for _, r := range st.rows {
+		if r.metric == 1 {
+			if metas[0].NoSampleAgent && cfg.ModeAgent && !cfg.DisableNoSampleAgent {
+				v.Assert("C05.budgets.no_sample_agent_metric_always_kept_with_1", v.And(r.kept == 1, r.item.SF == 1))
+				v.Reach("C05.budgets.no_sample_agent")
+			}
+			if size[0] <= int(dedicated) {
+				v.Assert("C05.budgets.fits_dedicated_budget_kept_with_1", v.And(r.kept == 1, r.item.SF == 1))
+			}
+		} else if int64(size[1]) <= budget {
+			v.Assert("C06.budgets.common_metric_fits_common_budget_kept_with_1", v.And(r.kept == 1, r.item.SF == 1))
+		}
+	}
+	v.Reach("C05.budgets.end")
+}
+
+func Harness_C05_budgets_2rows() { c05Budgets(2) }
+func Harness_C05_budgets_3rows() { c05Budgets(3) }
+
+// Fair keys (SampleKeys): one over-budget metric whose fair key is tag 2; 2..3 rows with tag 2 in
+// {5,6} and tag 0 in {5,6} independently, sizes from {1,3,8}, budget from {0,1,2,4,7,8,11,16,32}. The rows are partitioned
+// by the value of the configured tag (not any other tag): a key value whose rows take no more than
+// its equal share of the metric's budget (size x number of key values <= budget) is kept entirely
+// with factor 1, whatever the other key value's size.
+func c06FairKey(n int) {
+	st := &c05State{}
+	meta := &format.MetricMetaValue{MetricID: 1, EffectiveWeight: 1, FairKeyIndex: []int{2}}
+	cfg := c05Cfg(st)
+	cfg.SampleKeys = true
+	// one metric of weight 1: the metric's budget is budget*1/1, already integral - no rounding draw
+	cfg.RoundF = func(b float64, r *rand.Rand) float64 { return b }
+	h := NewSampler(cfg)
+	var keyOf []int32
+	sizeOf := map[int32]int{}
+	for i := 0; i < n; i++ {
+		row := &c05Row{item: &MultiItem{MetricMeta: meta}, size: []int{1, 3, 8}[v.Choice(3)], whale: v.NondetFloatInt(0, 100), metric: 1}
+		k := int32(5 + v.Choice(2))
+		row.item.Key.Metric = 1
+		row.item.Key.Tags[2] = k
+		row.item.Key.Tags[0] = int32(5 + v.Choice(2))
+		keyOf = append(keyOf, k)
+		sizeOf[k] += row.size
+		st.rows = append(st.rows, row)
+		h.Add(SamplingMultiItemPair{Item: row.item, WhaleWeight: row.whale, Size: row.size, MetricID: 1, BucketTs: 1000})
+	}
+	budget := []int64{0, 1, 2, 4, 7, 8, 11, 16, 32}[v.Choice(9)] // concrete list: a symbolic budget under the dedicated-budget partition gave solver unknowns
+	h.Run(budget)
+	c05Common(st)
+	for i, r := range st.rows {
+		if int64(sizeOf[keyOf[i]]*len(sizeOf)) <= budget {
+			v.Assert("C06.fairkey.key_value_within_its_share_kept_with_1", v.And(r.kept == 1, r.item.SF == 1))
+			v.Reach("C06.fairkey.within_share")
+		}
+	}
+	v.Reach("C06.fairkey.end")
+}
+
+func Harness_C06_fair_key_2rows() { c06FairKey(2) }
+func Harness_C06_fair_key_3rows() { c06FairKey(3) }
